@@ -121,12 +121,20 @@ TRace ==
     /\ viol' = viol \cup V(Explained(MapOf(E.init), OpOf(E.a), OpOf(E.b), E.ra, E.rb, MapOf(E.final)), "BatchesSerializable")
     /\ UNCHANGED <<kv, its>>
 
-TNext == TRace \/ TReset \/ TCommit \/ TGet \/ TDel \/ TIterOpen \/ TIterNext \/ TIterDrain \/ TDelCur
+\* an iterator over many keys (more than an engine fetches at once), with a batch committed after it was opened:
+\* it yields the contents at the time it was opened -- all of them, in order, the deleted key included, the new one not
+TIterBulk ==
+    /\ Is("SIterBulk") /\ l' = l + 1
+    /\ viol' = viol \cup V(E.write_ok => (E.yielded = E.n /\ E.saw_deleted /\ ~E.saw_new /\ E.ordered), "IterSnapshotBulk")
+    /\ UNCHANGED <<kv, its>>
+
+TNext == TIterBulk \/ TRace \/ TReset \/ TCommit \/ TGet \/ TDel \/ TIterOpen \/ TIterNext \/ TIterDrain \/ TDelCur
 TSpec == TInit /\ [][TNext]_vars
 TraceAccepted == TLCGet("stats").diameter - 1 = Len(Trace)
 NoViol(name) == \A v \in viol : v[1] # name
 M_ConditionExactly   == NoViol("ConditionExactly")
 M_BatchesSerializable == NoViol("BatchesSerializable")
+M_IterSnapshotBulk == NoViol("IterSnapshotBulk")
 M_GetReturnsStored   == NoViol("GetReturnsStored")
 M_DelUnconditional   == NoViol("DelUnconditional")
 M_IterOpens          == NoViol("IterOpens")
